@@ -378,12 +378,15 @@ func (e *Enc) binop(st *State, op token.Token, a, b *Val, xt types.Type, rt type
 			return intVal(rt, wrapMod(rt, fmt.Sprintf("(* %s %s)", x, pow2(atoi(y)))))
 		}
 		r := intVal(rt, fmt.Sprintf("(bitshl %s %s)", x, y))
+		e.assume(st, e.wf(r, st.alloc)) // the (uninterpreted) result is a value of its Go type
 		return r
 	case token.SHR:
 		if isLiteral(y) {
 			return intVal(rt, fmt.Sprintf("(div %s %s)", x, pow2(atoi(y))))
 		}
-		return intVal(rt, fmt.Sprintf("(bitshr %s %s)", x, y))
+		r := intVal(rt, fmt.Sprintf("(bitshr %s %s)", x, y))
+		e.assume(st, e.wf(r, st.alloc))
+		return r
 	case token.AND, token.OR, token.XOR, token.AND_NOT:
 		if r, ok := bitwiseSmall(rt, op, x, y); ok {
 			return intVal(rt, r)
@@ -402,12 +405,12 @@ func (e *Enc) binop(st *State, op token.Token, a, b *Val, xt types.Type, rt type
 		v := intVal(rt, fmt.Sprintf("(bitand %s %s)", x, y))
 		e.assume(st, fmt.Sprintf("(and (<= 0 %s) (<= %s %s))", v.term(), v.term(), x))
 		return v
-	case token.OR:
-		return intVal(rt, fmt.Sprintf("(bitor %s %s)", x, y))
-	case token.XOR:
-		return intVal(rt, fmt.Sprintf("(bitxor %s %s)", x, y))
-	case token.AND_NOT:
-		return intVal(rt, fmt.Sprintf("(bitandnot %s %s)", x, y))
+	case token.OR, token.XOR, token.AND_NOT:
+		name := map[token.Token]string{token.OR: "bitor", token.XOR: "bitxor", token.AND_NOT: "bitandnot"}[op]
+		v := intVal(rt, fmt.Sprintf("(%s %s %s)", name, x, y))
+		// wide operands stay uninterpreted, but the result is still a value of its Go type
+		e.assume(st, e.wf(v, st.alloc))
+		return v
 	}
 	e.unsupported("binop %v", op)
 	return nil
